@@ -133,6 +133,69 @@ def sweep_text(scope):
     return '\n'.join(out) + '\n'
 
 
+def feature_text():
+    """a second, small source: one zone per TZ feature that BasicZoneProcessor does not implement (UNTIL finer than a year, an
+    UNTIL suffix other than w, two rules of a policy in one month of one year, a transition on January 1, a LETTER longer than a
+    character), next to control zones that use none of them.  CONTROLS are the zones a basic compilation has to keep."""
+    out = ['# features outside the basic processor']
+
+    def pol(name, a, b):
+        out.append('Rule\t%s\t1990\t2045\t-\t%s' % (name, a))
+        out.append('Rule\t%s\t1990\t2045\t-\t%s' % (name, b))
+    pol('FOk', 'Mar\tlastSun\t2:00\t1:00\tD', 'Oct\tlastSun\t2:00\t0\tS')
+    pol('FDec', 'Jun\t1\t0:00\t1:00\tD', 'Dec\t31\t0:00\t0\tS')
+    pol('FDup', 'Mar\tSun>=8\t2:00\t1:00\tD', 'Mar\tlastSun\t2:00\t0\tS')
+    out.append('Rule\tFDupY\t1990\t2045\t-\tApr\t1\t2:00\t1:00\tD')
+    out.append('Rule\tFDupY\t1990\t2045\t-\tOct\t1\t2:00\t0\tS')
+    out.append('Rule\tFDupY\t2010\tonly\t-\tOct\t20\t2:00\t1:00\tD')       # a second October rule in one year only
+    pol('FJan', 'Jan\t1\t0:00\t1:00\tD', 'Jul\t1\t0:00\t0\tS')
+    pol('FJanW', 'Jan\tSun>=1\t0:00\t1:00\tD', 'Jul\t1\t0:00\t0\tS')
+    pol('FLong', 'Mar\tlastSun\t2:00\t1:00\tDD', 'Oct\tlastSun\t2:00\t0\tS')
+    pol('FLong3', 'Mar\tlastSun\t2:00\t1:00\tD', 'Oct\tlastSun\t2:00\t0\tWAT')
+    for z, p in (('Plain', 'FOk'), ('Dec31', 'FDec'), ('Dup', 'FDup'), ('DupYear', 'FDupY'), ('Jan1', 'FJan'), ('JanSun', 'FJanW'), ('Long', 'FLong'), ('Long3', 'FLong3')):
+        out.append('Zone\tFeat/%s\t-5:00\t%s\tE%%sT' % (z, p))
+    out.append('Zone\tFeat/Fixed\t5:30\t-\tIST')
+    out.append('Zone\tFeat/TwoEras\t2:00\tFOk\tE%sT\t2005')
+    out.append('\t\t\t3:00\t-\tUBT')
+    for z, until in (('UntMonth', '2005\tMar'), ('UntDay', '2005\tMar\t9'), ('UntWeekday', '2005\tMar\tlastSun'), ('UntTime', '2005\tJan\t1\t2:00'),
+                     ('UntSfxS', '2005\tJan\t1\t0:00s'), ('UntSfxU', '2005\tJan\t1\t0:00u'), ('UntDayS', '2005\tOct\t30\t2:00s')):
+        out.append('Zone\tFeat/%s\t2:00\t-\tUAT\t%s' % (z, until))
+        out.append('\t\t\t3:00\t-\tUBT')
+    # one zone, policy or link per reason the transformer can give for a removal or a note that the big sweep does not reach
+    for z, until in (('UdBad', '2005\tMar\tFoo'), ('UdPrev', '2005\tJan\tSun<=1'), ('UdNext', '2005\tDec\tSun>=29'), ('UdShift', '2005\tMar\tSun>=29'),
+                     ('UtNeg', '2005\tOct\t30\t-1:00')):
+        out.append('Zone\tFeat/%s\t2:00\t-\tUAT\t%s' % (z, until))
+        out.append('\t\t\t3:00\t-\tUBT')
+    out.append('Zone\tFeat/OldOnly\t1:00\t-\tOLD\t1990')
+    out.append('Zone\tFeat/FmtPct\t1:00\t-\tE%sT')
+    out.append('Zone\tFeat/FmtPlain\t1:00\tFOk\tEST')
+    out.append('Zone\tFeat/RulesBad\t1:00\t1:xx\tFOO')
+    out.append('Zone\tFeat/NonMono\t2:00\t-\tUAT\t2005')
+    out.append('\t\t\t3:00\t-\tUBT\t2003')
+    out.append('\t\t\t4:00\t-\tUCT')
+    out.append('Zone\tFeat/FinalUntil\t2:00\t-\tUAT\t2005')
+    out.append('Zone\tFeat/Du-p\t4:00\t-\tDPA')
+    out.append('Zone\tFeat/Du_p\t4:00\t-\tDPB')
+    pol('FUnused', 'Mar\tlastSun\t2:00\t1:00\tD', 'Oct\tlastSun\t2:00\t0\tS')
+    out.append('Rule\tFOob\t1800\t2200\t-\tMar\tlastSun\t2:00\t1:00\tD')
+    out.append('Rule\tFOob\t1800\t2200\t-\tOct\tlastSun\t2:00\t0\tS')
+    pol('FOnBad', 'Mar\tFoo\t2:00\t1:00\tD', 'Oct\tlastSun\t2:00\t0\tS')
+    pol('FOnPrev', 'Jan\tSun<=3\t2:00\t1:00\tD', 'Oct\tlastSun\t2:00\t0\tS')
+    pol('FOnNext', 'Mar\tlastSun\t2:00\t1:00\tD', 'Dec\tSun>=29\t2:00\t0\tS')
+    pol('FAtNeg', 'Mar\tlastSun\t-1:00\t1:00\tD', 'Oct\tlastSun\t2:00\t0\tS')
+    pol('FSaveBad', 'Mar\tlastSun\t2:00\tabc\tD', 'Oct\tlastSun\t2:00\t0\tS')
+    for z, p in (('Oob', 'FOob'), ('OnBad', 'FOnBad'), ('OnPrev', 'FOnPrev'), ('OnNext', 'FOnNext'), ('AtNeg', 'FAtNeg'), ('SaveBad', 'FSaveBad')):
+        out.append('Zone\tFeat/%s\t-5:00\t%s\tE%%sT' % (z, p))
+    out.append('Link\tFeat/OldOnly\tFeat/LinkGone')
+    out.append('Link\tFeat/Plain\tFeat/Li-nk')
+    out.append('Link\tFeat/Plain\tFeat/Li_nk')
+    out.append('Link\tFeat/Fixed\tFeat/LinkKept')
+    return '\n'.join(out) + '\n'
+
+
+FEATURE_CONTROLS = ('Feat/Plain', 'Feat/Dec31', 'Feat/Fixed', 'Feat/TwoEras')
+
+
 # ---- the compiler, interpreted --------------------------------------------------------------------------------------------------
 
 def _kwargs(f, vals, what):
@@ -147,6 +210,7 @@ def _kwargs(f, vals, what):
 def compile_text(cfg, text, scope, strict=False, start_year=2000, until_year=2050):
     """-> (tzdb, raw) : the TzDb record the generators are given, and the Extractor's maps"""
     ev = PyEval(cfg, max_steps=20000000)
+    ev.cov = set()
     ex, tr, co = ev.module(EX), ev.module(TR), ev.module(CO)
     gran = 900 if scope == 'basic' else 60
     try:
@@ -179,6 +243,7 @@ def compile_text(cfg, text, scope, strict=False, start_year=2000, until_year=205
         raise Raised('TzDbCollector raises %s on the sweep (%s)' % (r_.what, r_.loc), r_.loc)
     if not isinstance(tzdb, dict):
         raise AnalysisError('%s: TzDbCollector.get_data() does not return the TzDb record' % co.fn('TzDbCollector.get_data').loc)
+    raw['coverage'] = ev.cov
     return tzdb, raw
 
 
